@@ -42,7 +42,7 @@ def make_stub_class():
             self.W = np.ones(nq)
 
         def default_parameters(self):
-            return {}
+            return dict(getattr(self, 'defaults', {}))
 
     return Stub
 
@@ -89,6 +89,9 @@ Definition mkb (N Nb nt nq : nat) (ed : list (list nat)) (bv bg : list (list (li
 (* integrand families with integer coefficients: non-symmetric in (u, v) *)
 Definition form2 (k : list Z) (u v : VZ) (w : Z) : Z :=
   nth 0 k 0 * w * (fst u * snd v) + nth 1 k 0 * (snd u * fst v) + nth 2 k 0 * (fst u * fst v) + nth 3 k 0 * w * (snd u * snd v).
+Definition form3 (k : list Z) (u v w : VZ) (p : Z) : Z :=
+  nth 0 k 0 * p * (fst u * fst v * fst w) + nth 1 k 0 * (snd u * fst v * snd w) + nth 2 k 0 * (fst u * snd v * fst w)
+  + nth 3 k 0 * p * (snd u * snd v * snd w).
 Definition form1 (k : list Z) (v : VZ) (w : Z) : Z := nth 0 k 0 * w * fst v + nth 1 k 0 * snd v + nth 2 k 0 * fst v.
 Definition form0 (k : list Z) (w : Z) : Z := nth 0 k 0 * w + nth 1 k 0 * w * w + nth 2 k 0.
 Definition coo_out (c : coo Z) := (c_indices c, c_data c, c_shape c).
@@ -99,25 +102,32 @@ Local Close Scope Z_scope.
 '''
 
 COQ_IMPORTS = ('From Coq Require Import List Arith Bool ZArith.\n'
-               'Require Import Base.C01_Sums Model.C01_Assembly Gen.C01Gen.')
+               'Require Import Base.C01_Sums Model.C01_Assembly Model.C01_Trilinear Gen.C01Gen.')
 
 
-def py_form2(k):
+def py_form2(k, key='c'):
     def form(u, v, w):
-        return (k[0] * w['c'] * (u * v.grad[0]) + k[1] * (u.grad[0] * v) + k[2] * (u * v)
-                + k[3] * w['c'] * (u.grad[0] * v.grad[0]))
+        return (k[0] * w[key] * (u * v.grad[0]) + k[1] * (u.grad[0] * v) + k[2] * (u * v)
+                + k[3] * w[key] * (u.grad[0] * v.grad[0]))
     return form
 
 
-def py_form1(k):
+def py_form3(k):
+    def form(u, v, w, p):
+        return (k[0] * p['c'] * (u * v * w) + k[1] * (u.grad[0] * v * w.grad[0]) + k[2] * (u * v.grad[0] * w)
+                + k[3] * p['c'] * (u.grad[0] * v.grad[0] * w.grad[0]))
+    return form
+
+
+def py_form1(k, key='c'):
     def form(v, w):
-        return k[0] * w['c'] * v + k[1] * v.grad[0] + k[2] * v
+        return k[0] * w[key] * v + k[1] * v.grad[0] + k[2] * v
     return form
 
 
-def py_form0(k):
+def py_form0(k, key='c'):
     def form(w):
-        return k[0] * w['c'] + k[1] * w['c'] * w['c'] + k[2]
+        return k[0] * w[key] + k[1] * w[key] * w[key] + k[2]
     return form
 
 
